@@ -130,7 +130,10 @@ def gen(rng, tier):
     cases.append("srv 4 c c c c c c c c l0 l1 q0 e1:aborthead e2:okclose e3:abort l0 e0:abortbody")
     for _ in range(40 if tier == "quick" else 1200):
         cases.append(random_acc(rng, rng.choice([1, 2, 3, 4]), True, rng.randint(4, 14)))
+    # accept() failing with EMFILE for 3.7 s (7 retry rounds) while a client knocks: afterwards the slot count is whole
+    cases.append("acc 2 c f7 e0 c c")
     if tier == "thorough":
+        cases += ["acc 1 f4 c", "acc 1 f12 c", "acc 2 f16 c"]
         # accept() failing with EMFILE while a client knocks (descriptor limit lowered for 0.7 s)
         for n in (1, 2):
             cases.append("acc %d f1 c" % n)
